@@ -127,8 +127,8 @@ LEVEL = {
             "affine transport: a rule exact to degree d on [-1,1] is exact to degree d on [a,b] under the code's map (all polynomials), so Gauss-Legendre = "
             "numpy leggauss contract + this theorem; counterexample theorem for the originally pinned weights*=0.5. Clenshaw-Curtis is modelled completely "
             "(the inverse FFT by its definition, the inverse DFT): for every n>=2 the weights sum to b-a (roots-of-unity sums + telescoping), nodes strictly "
-            "increasing in [a,b] with ends a and b, ALL weights positive and none smaller than the end weights (every entry of the ifft input but the first is <= 0, so each output is >= wcc0 > 0), symmetric. Partial: CC exactness to "
-            "degree n-1 for all n is not proved; CC and the leggauss contract are tested per n (2..64 quick, ..384 thorough) in 60-digit "
+            "increasing in [a,b] with ends a and b, ALL weights positive and none smaller than the end weights (every entry of the ifft input but the first is <= 0, so each output is >= wcc0 > 0), symmetric, and the rule is exact for linear functions (cc_exact_linear). Partial: CC exactness to "
+            "degree n-1 beyond degree 1 for all n is not proved; CC and the leggauss contract are tested per n (2..64 quick, ..384 thorough) in 60-digit "
             "arithmetic. Spawn-stack tensor structure: oracle on the implementation (theorem with the SpawnStack model, C10)", "7 C18", NOTE,
             "Lean 4 theorems (Finset sums, induction on panels, Polynomial.comp + integral substitution) + correspondence for all five rules"),
     "C19": ("proof", "Lean theorems: scaled Boltzmann momenta have kinetic energy per dof exactly kT/2 (any masses>0, T>=0, any draws with "
